@@ -318,7 +318,12 @@ XalanSourceTreeContentHandler::startPrefixMapping(
         const XMLCh* const  /* prefix */,
         const XMLCh* const  /* uri */)
 {
-    assert(m_inDTD == false);
+    // The parser may abandon the internal DTD subset after an error,
+    // without reporting its end (see also startElement()).
+    if (m_inDTD == true)
+    {
+        m_inDTD = false;
+    }
 }
 
 
